@@ -302,6 +302,48 @@ class History:
                 tx._verif_prebuilt = paths      # (kept on the object: id() values are recycled)
                 out["ids"] = ids
                 out["prebuilt"] = paths
+            elif kind == "readopt_dead":
+                # a transaction registered two pre-built files and DIED (no commit, no rollback: its markers stay and
+                # grow older than the abandonment timeout); a new, live transaction then registers the same files
+                import io as _io
+
+                import pyarrow as pa
+                import pyarrow.parquet as pq
+                from datashard.data_structures import DataFile, FileFormat
+
+                ids = self.fresh_ids(2)
+                dfs, paths = [], []
+                for one in ids:
+                    tbl = pa.Table.from_pylist(tables.rows([one]), schema=pa.schema(
+                        [pa.field("id", pa.int64(), nullable=False), pa.field("v", pa.string())]))
+                    buf = _io.BytesIO()
+                    pq.write_table(tbl, buf)
+                    rel = f"data/bulk_{one}.parquet"
+                    t.storage.write_file(rel, buf.getvalue())
+                    paths.append(rel)
+                    dfs.append(DataFile(file_path="/" + rel, file_format=FileFormat.PARQUET, partition_values={},
+                                        record_count=1, file_size_in_bytes=len(buf.getvalue())))
+                dead = t.new_transaction().begin()
+                dead.append_files(dfs)
+                dead_markers = list(dead._inflight_markers)
+                dead._inflight_markers = []           # the process that owned it is gone: nothing will clean up
+                dead._active = False if hasattr(dead, "_active") else None
+                for rel in paths + dead_markers:      # long ago
+                    if self.backend == "local":
+                        pth = os.path.join(self.root, rel)
+                        if os.path.exists(pth):
+                            old_t = time.time() - 100000.0
+                            os.utime(pth, (old_t, old_t))
+                    else:
+                        key = self.s3env.full_prefix(self.table_path) + "/" + rel
+                        if (self.s3env.bucket, key) in self.store.objects:
+                            self.store.set_age(self.s3env.bucket, key, 100000.0)
+                tx = t.new_transaction().begin()
+                tx.append_files(dfs)
+                tx._verif_prebuilt = paths
+                self.open_txs.append((tx, ids))
+                out["ids"] = ids
+                out["prebuilt"] = paths
             elif kind == "commit_tx":
                 if not self.open_txs:
                     out["skipped"] = True
@@ -449,6 +491,8 @@ def gen_ops(rng: random.Random, n: int, alphabet: List[str]) -> List[Tuple[Any, 
             ops.append(("open_tx", rng.randint(1, 2)))
         elif k == "open_tx_sub":
             ops.append(("open_tx_sub",))
+        elif k == "readopt_dead":
+            ops.append(("readopt_dead",))
         elif k == "commit_tx":
             ops.append(("commit_tx",))
         elif k == "rollback_tx":
